@@ -261,6 +261,27 @@ func buildWork(c *lib.Ctx) []work {
 			}
 		}
 	}
+	// (D) case flag switched INSIDE the pattern, with and without start anchors:
+	// a case-insensitive literal followed by a case-sensitive one (and the
+	// reverse) - first-character sets of the two differ only by case (added after
+	// a seeded change in the one-pass classification of \A-anchored patterns with
+	// a (?i) literal was missed)
+	var lits []string
+	for _, l := range []string{"a", "A", "b"} {
+		for _, q := range []string{"", "*", "?", "+", "*?"} {
+			lits = append(lits, l+q)
+		}
+	}
+	for _, st := range []string{"", "^", `\A`} {
+		for _, en := range [][2]string{{"", ""}, {`\Z`, `\z`}} {
+			for _, x := range lits {
+				for _, y := range lits {
+					add(work{"D", st + "(?i)" + x + "(?-i)" + y + en[0], st + "(?i)" + x + "(?-i)" + y + en[1], "aAbB", 4})
+					add(work{"D", st + x + "(?i)" + y + en[0], st + x + "(?i)" + y + en[1], "aAbB", 4})
+				}
+			}
+		}
+	}
 	return ws
 }
 
